@@ -9,10 +9,10 @@ open Sqfs.Consts
 
 /-- a stored block that is neither `FIRST` nor `LAST`, written between two files: the record of its location can be
 added to the ones the invariant keeps -/
-theorem inv_between {pre s ps acc recs} (c : Call) (h : Inv pre s ps false acc recs) (hsz : c.data.length < 2 ^ 24)
+theorem inv_between {pre s ps acc recs loose} (c : Call) (h : Inv pre s ps false acc recs loose) (hsz : c.data.length < 2 ^ 24)
     (hst : c.stored = true) (hf : c.first = false) (hl : c.last = false) :
     ∃ s' ps', writeDataBlock s c.chk c.flags c.data = .ok (s', s.file.length) ∧
-      Inv pre s' ps' false (fileStep acc c) (recs ++ [⟨s.file.length, [c.blk]⟩]) := by
+      Inv pre s' ps' false (fileStep acc c) (recs ++ [⟨s.file.length, [c.blk]⟩]) loose := by
   have hl' : ¬ hasFlag c.flags blkLastBlock = true := by simpa [Call.last] using hl
   have hf' : ¬ hasFlag c.flags blkFirstBlock = true := by simpa [Call.first] using hf
   have hst' : (c.data.length != 0 && !hasFlag c.flags blkIsSparse) = true := hst
@@ -39,7 +39,16 @@ theorem inv_between {pre s ps acc recs} (c : Call) (h : Inv pre s ps false acc r
         exact mkWord_size _ _ hsz
     · show s.fileStart ≤ (ps ++ [(e, c.data)]).length
       simp; omega
-  refine ⟨habs, fun ho => (by cases ho), ?_⟩
+  have hsb0 : sb { s with blocks := s.blocks ++ [e], file := writeAt s.file s.file.length c.data } false = ps.length + 1 := by
+    simp [sb, hlen]
+  refine ⟨habs, fun ho => (by cases ho), ?_, ?_⟩
+  rotate_left
+  · intro r hr
+    rw [hsb0]
+    refine HoldsIn_stable (h.loose r hr) ?_ ?_
+    · apply List.take_append_of_le_length
+      simp [sb, hlen]
+    · simp [sb, hlen]
   intro rc hrc
   have hsb : sb { s with blocks := s.blocks ++ [e], file := writeAt s.file s.file.length c.data } false = ps.length + 1 := by
     simp [sb, hlen]
@@ -86,7 +95,7 @@ theorem nextOpened_callOf (o : Bool) (b : Blk) : BlockWriter.nextOpened o (callO
   simp [BlockWriter.nextOpened, bOpen, callOf_first, callOf_last]
 
 theorem WInv.init (P : Params) : WInv P [] { wr := BlockWriter.init P.pre } :=
-  ⟨⟨[], [], [], BlockWriter.Inv_init P.pre, fun b hb => (by cases hb)⟩, rfl, fun e he => (by cases he), fun e he => (by cases he)⟩
+  ⟨⟨[], [], [], [], BlockWriter.Inv_init P.pre, fun b hb => (by cases hb)⟩, rfl, fun e he => (by cases he), fun e he => (by cases he)⟩
 
 theorem mem_blockEffs {b : Blk} {loc : Nat} {e : Eff} (h : e ∈ blockEffs b loc) :
     b.inode = some e.id ∧ ((e.e = .start loc) ∨ (hasFlag b.flags blkIsSparse = true ∧ e.e = .sparse b.index b.data.length) ∨
@@ -115,7 +124,7 @@ theorem WInv.step {P : Params} {written : List Blk} {W : WSt} (h : WInv P writte
     (hp : (if isFB b then !(written.foldl bOpen false) else (!isLast b || written.foldl bOpen false || isFirst b)) = true)
     (hfb : isFB b = true → FBFlagFacts b.flags ∧ b.data ≠ []) :
     ∃ W', wStep W b = .ok W' ∧ WInv P (written ++ [b]) W' := by
-  obtain ⟨⟨ps, acc, recs, hinv, hrecs⟩, hsets, hprov, hids⟩ := h
+  obtain ⟨⟨ps, acc, recs, loose, hinv, hrecs⟩, hsets, hprov, hids⟩ := h
   have hrest : ∀ (loc : Nat),
       (∀ e ∈ W.effs ++ blockEffs b loc, (∃ loc, e.e = .start loc) ∨ (∃ k m, e.e = .sparse k m) ∨
               (∃ k v y, e.e = .word k v ∧ y ∈ written ++ [b] ∧ isFB y = false ∧ y.data ≠ [] ∧ y.inode = some e.id ∧ y.index = k)) ∧
@@ -164,7 +173,7 @@ theorem WInv.step {P : Params} {written : List Blk} {W : WSt} (h : WInv P writte
       intro e he
       obtain ⟨y, hy, hyi⟩ := hids e he
       exact ⟨y, List.mem_append_left _ hy, hyi⟩
-    refine ⟨⟨ps', BlockWriter.fileStep acc (callOf b), recs ++ [⟨W.wr.file.length, [(callOf b).blk]⟩], ?_, ?_⟩, ?_, hr1, hr2⟩
+    refine ⟨⟨ps', BlockWriter.fileStep acc (callOf b), recs ++ [⟨W.wr.file.length, [(callOf b).blk]⟩], loose, ?_, ?_⟩, ?_, hr1, hr2⟩
     · rw [foldl_bOpen_snoc, ho, bOpen_fb hfacts]; exact hinv'
     · intro y hy hyfb
       rcases List.mem_append.mp hy with hy | hy
@@ -194,7 +203,8 @@ theorem WInv.step {P : Params} {written : List Blk} {W : WSt} (h : WInv P writte
     obtain ⟨hr1, hr2'⟩ := hrest loc
     have hr2 := hr2' hnfb
     refine ⟨⟨ps', BlockWriter.fileStep acc (callOf b),
-      BlockWriter.nextRecs recs (callOf b) (BlockWriter.fileStep acc (callOf b)) loc, ?_, ?_⟩, ?_, hr1, hr2⟩
+      BlockWriter.nextRecs recs (callOf b) (BlockWriter.fileStep acc (callOf b)) loc,
+      BlockWriter.nextLoose loose (written.foldl bOpen false) (callOf b) loc, ?_, ?_⟩, ?_, hr1, hr2⟩
     · rw [foldl_bOpen_snoc, ← nextOpened_callOf]; exact hinv'
     · intro y hy hyfb
       rcases List.mem_append.mp hy with hy | hy
